@@ -36,6 +36,14 @@ JOBQ_RUN = {"harness": "hjobq", "driver": "jobqdrv", "fields": None, "corpus": "
 TPOOL_RUN = {"harness": "htpool", "driver": "tpooldrv", "fields": None, "corpus": "conc-tpool",
              "quick": {"n": 120, "shards": 12}, "thorough": {"n": 1200, "shards": 32}}
 
+# C05 through the websocket upgrade (seed C05-d / C14-d): hwscb's end-to-end cases on the paths where the HTTP handler
+# that upgrades and the websocket callbacks share the conn's executor, with a slow handler and frames sent right behind
+# the 101 response; direct oracle c05-overlap, plus the `exec=` field (executor installed by Upgrade, model:
+# WsCb.execOf). Harness, driver and the retrying runner belong to the stop family (docs/stop.md).
+from .props_stop import retry_run as _retry_run, WSCB_RUN as _WSCB_RUN  # noqa: E402
+WSUP_RUN = {"harness": "hwscb", "driver": "wscbdrv", "corpus": "wscb-c05", "fields": _WSCB_RUN["fields"], "custom": _retry_run,
+            "gen_args": ["-tier", "c05"], "quick": {"n": 6, "shards": 6}, "thorough": {"n": 24, "shards": 12}}
+
 PROPS = {
     "C05": {
         "manifest": {
@@ -50,8 +58,8 @@ PROPS = {
                     "replays chosen ones; atomicity of the model steps rests on the mutex structure of the three functions (read, not "
                     "extracted); concurrent bursts are free-running and compared through the observed run order",
             "technique": "Lean 4 proof (inductive invariant of a transition system) + schedule replay / differential correspondence"},
-        "lean": ["NbioVerif.Properties.C05"], "drivers": ["jobqdrv"], "harness": ["hjobq"],
-        "runs": [JOBQ_RUN],
+        "lean": ["NbioVerif.Properties.C05"], "drivers": ["jobqdrv", "wscbdrv"], "harness": ["hjobq", "hwscb"],
+        "runs": [JOBQ_RUN, WSUP_RUN],
         "cs": [cs_conc.cs_conn_submit, cs_conc.cs_conn_drainer, cs_conc.cs_conn_close_flip, cs_conc.cs_nbhttp_close_routed],
         "search": search_c05,
         "oracles": ["c05-"],
